@@ -14,6 +14,8 @@ from checks import c06_map as M
 from checks import c06_translate as T
 
 OPS = "rpTwgmiedsukKacxz"          # see harness/h_c06.cpp
+UOPS = "UVWY"                      # a continuation of another future returns this SharedFuture and the library flattens it
+ALL = OPS + UOPS
 TERMINAL = "mz"                    # nothing may follow (Get()&& consumes the future, z destroys the copy)
 FULFIL = ["set", "err", "drop", "split", "nofut"]
 HARNESS = os.path.join(vlib.VERIF, "harness", "h_c06.cpp")
@@ -30,7 +32,7 @@ def op_lists(n, alphabet=OPS):
 def rand_ops(rng, n):
     s = ""
     for i in range(n):
-        o = rng.choice(OPS if i == n - 1 else [x for x in OPS if x not in TERMINAL])
+        o = rng.choice(ALL if i == n - 1 else [x for x in ALL if x not in TERMINAL])
         s += o
     return s
 
@@ -39,8 +41,11 @@ def suites(tier, seed):
     """-> list of dict(name, args, plans, exhaustive_expected)"""
     rng = random.Random(seed * 7919 + 17)
     thorough = tier == "thorough"
-    singles = op_lists(1)
+    singles = op_lists(1, ALL)
     pairs = op_lists(2)
+    # the flattened-SharedFuture family next to everything else (the value must stay intact for whoever reads next)
+    upairs = ["U" + o for o in ALL] + [o + "U" for o in OPS if o not in TERMINAL] + ["W" + o for o in ALL] + \
+             ["VU", "YU", "Yp", "Ym", "Vp", "VT"]
     s = []
     # E1: one observer, one op, every fulfilment kind - exhaustive, with one spurious weak-CAS failure
     s.append(dict(name="E1 1+1 x 1 op, all kinds of fulfilment (exhaustive, weak 1)", weak=1, pb=None, mode="dfs",
@@ -50,7 +55,8 @@ def suites(tier, seed):
         s.append(dict(name="E1b 1+1 x 1 op, other kinds of fulfilment (exhaustive)", weak=0, pb=None, mode="dfs",
                       plans=["%s/%s" % (f, o) for f in FULFIL[1:] for o in singles], exhaustive=True))
     # E2: one observer, two ops - exhaustive
-    e2 = list(pairs) if thorough else (["ip", "im", "km", "ag"] + rng.sample(pairs, 14))
+    e2 = (list(pairs) + upairs) if thorough else \
+         (["ip", "im", "km", "ag", "Up", "UU", "Ug", "UT", "Um", "WU", "pU"] + rng.sample(pairs, 10))
     s.append(dict(name="E2 1+1 x 2 ops (exhaustive)", weak=0, pb=None, mode="dfs",
                   plans=sorted(set("set/%s" % p for p in e2)), exhaustive=True))
     # E3: two observers, one op each - exhaustive (a bystander sampling Ready()/Touch() next to an attach, ...)
@@ -58,8 +64,9 @@ def suites(tier, seed):
     s.append(dict(name="E3 1+2 x 1 op (exhaustive)", weak=0, pb=None, mode="dfs", maxexec=3000000,
                   plans=["set/%s" % p for p in e3], exhaustive=True))
     # B: two observers, up to two ops each - preemption-bounded DFS
-    nb = 36 if thorough else 22
-    pl = ["set/i.p", "set/ip.p", "set/k.m", "set/a.p", "set/km.p"]
+    nb = 40 if thorough else 26
+    pl = ["set/i.p", "set/ip.p", "set/k.m", "set/a.p", "set/km.p",
+          "set/U.p", "set/U.m", "set/W.p", "set/W.m", "set/Y.p", "set/UU.p"]
     while len(pl) < nb:
         f = rng.choice(FULFIL)
         a = rand_ops(rng, rng.choice([1, 2]))
@@ -160,6 +167,10 @@ def main(ck):
         "a future is not used after Get()&&/Touch()&& except to destroy it",
         "When*/Join on SharedFutures attach through the same SetCallback and read through const& (kind KInl of the model); "
         "their own counters are C09/C10's subject and are not exercised here",
+        "a SharedFuture returned by a continuation of another future and flattened by the library (ops U V W Y) is not a new model "
+        "event: it is a copy (the returned handle), an attach of a const-reading callback through that copy, the read, and the "
+        "release of the copy by whoever ran the read - the same composition as co_await's awaiter; the harness attaches the outer "
+        "step's continuation before the outer source is fulfilled so that the release is followed by that continuation's marker",
         "h_c06 offers a fiber switch only before operations on the callback word and the reference counter (and where a fiber blocks): "
         "a switch before an un-observed operation only moves un-observed work",
         "tracer reads the values through the YACLIB_VERIF after-hook (first 8 bytes of the atomic object)",
@@ -258,7 +269,9 @@ def main(ck):
     ck.cov["rule"] = ("generated programs: one fulfilling fiber (SharedPromise::Set value / error, ~SharedPromise, a unique Promise through "
                       "Split, MakeSharedPromise + Split(promise)) and 1-4 observer fibers, each running an op list on its own SharedFuture copy "
                       "(Ready, Ready+Touch const&, Ready+Touch&&, Wait, Get const&, Get&&, ThenInline, Then(e) inline-like and deferred, "
-                      "SubscribeInline, Subscribe(e), Share, Connect to a SharedPromise, co_await, copy, copy+destroy, destroy). "
+                      "SubscribeInline, Subscribe(e), Share, Connect to a SharedPromise, co_await, copy, copy+destroy, destroy, and a continuation of another "
+                      "(unique) future returning the SharedFuture so that the library flattens it: ThenInline / Then(e) by the observer, or owned by "
+                      "the callback and run by the fulfilling fiber before / after the shared Set). "
                       "Suites E1-E3: exhaustive DFS over every scheduling decision offered before an operation on the callback word or the "
                       "reference counter (and choice of next fiber, of notified waiter, of a spurious weak-CAS failure where stated); "
                       "B: the same DFS with a preemption bound; R: seeded random walks.  Traces are deduplicated per program by their full "
